@@ -20,6 +20,10 @@ func (e *Engine) nondet(label string, idx *Term, s Sort) *Term {
 		panic(unsupported("nondet index must be concrete (label %s)", label))
 	}
 	name := fmt.Sprintf("%s#%d", label, idx.Int64())
+	if fixedVals != nil {
+		// concrete re-execution of a model (engine-concrete replay)
+		return BVConst(fixedVals[name], s.W)
+	}
 	if _, ok := e.nondets[name]; !ok {
 		e.nondets[name] = s
 		e.ndOrder = append(e.ndOrder, name)
@@ -36,6 +40,9 @@ func concStr(v Value) string {
 }
 
 var params = map[string]int64{}
+
+// fixedVals, when non-nil, makes every nondet a constant (missing = 0).
+var fixedVals map[string]int64
 
 func (e *Engine) intrinsic(st *State, fn *ssa.Function, name string, args []Value, caller *Frame, site ssa.Instruction) (Value, bool, *State) {
 	short := fn.Name()
